@@ -169,7 +169,10 @@ def _graph(aa, mask, seed, use_w_tilde=False, positive_only=True, mesh="rectangu
     mg = aa.MapperGrids(mask=mk, source_plane_data_grid=grid, source_plane_mesh_grid=mesh_grid,
                         image_plane_mesh_grid=None, adapt_data=None)
     mapper = cls(mapper_grids=mg, over_sampler=over, border_relocator=None, regularization=regularization)
-    s = aa.SettingsInversion(use_w_tilde=use_w_tilde, use_positive_only_solver=positive_only)
+    # the remaining solver switches vary with the case (both values of each over the stream): warm start on / off, edge pixels
+    # forced to zero or not -- purity is claimed for every setting
+    s = aa.SettingsInversion(use_w_tilde=use_w_tilde, use_positive_only_solver=positive_only,
+                             positive_only_uses_p_initial=bool((seed // 2) % 2), force_edge_pixels_to_zeros=bool(seed % 2))
     inv = aa.Inversion(dataset=ds, linear_obj_list=[mapper], settings=s) if settings else \
         aa.Inversion(dataset=ds, linear_obj_list=[mapper])
     return {"mask": mk, "ds": ds, "over": over, "grid": grid, "mesh": mesh_grid, "mapper": mapper, "inv": inv,
@@ -1857,7 +1860,8 @@ def _gen_inv_assembly(rng, tier):
 
 def _inv_purity_body(aa, mask, seed, use_w_tilde, positive_only, meshes, regs, slots, warm, via_mesh_api, rotate, funcs=0):
     donor = _inv_inputs(aa, mask, seed, meshes, regs, via_mesh_api, funcs=funcs)
-    settings_kw = dict(use_w_tilde=use_w_tilde, use_positive_only_solver=positive_only)
+    settings_kw = dict(use_w_tilde=use_w_tilde, use_positive_only_solver=positive_only,
+                       positive_only_uses_p_initial=bool((seed // 2) % 2), force_edge_pixels_to_zeros=bool(seed % 2))
     donor_inv = aa.Inversion(dataset=donor["ds"], linear_obj_list=donor["linear_objs"], settings=aa.SettingsInversion(**settings_kw))
     preloads = aa.Preloads(**_preload_values(aa, donor, donor_inv, slots, use_w_tilde))
     fp_pre = _Fingerprint({"preloads": preloads})
